@@ -226,14 +226,12 @@ class Applied:
         self.drop_org = False       # the file's default '@org' in front of entry 0 is replaced by this directive
         self.final = None           # f(layout) -> list of Ins in force when active (None: unchanged)
         self.reloc = None           # f(ins) -> real address override for instruction ins (the @org forms)
-        self.peek_from = None       # f(layout) -> first address whose snapshot contents may differ when relocated
+        self.peek_from = None       # first address whose snapshot contents may legitimately differ when relocated
         self.anchor_label = False   # the directive labels the anchor
         self.displaces = False      # an insertion in front of the anchor takes over the entry label created by -c
         self.passive = False        # image must equal that of the file without the directive
         self.data = False           # @defb/@defs/@defw: #PEEK is compared with skool2bin -d
-        self.data_len = 0
         self.skip_asm = ()          # anchor-relative byte offsets excluded from (1) (@bytes: not expressible in ASM text)
-        self.need_variant = None
 
     def active(self, mode):
         if self.cond is not None:
@@ -241,7 +239,7 @@ class Applied:
         return self.kind is None or kind_active(self.kind, mode)
 
 
-def _new(lay, text, size=None):
+def _new(lay, text):
     i = Ins(text)
     i.text = lay.resolve(text)
     i.size = op_size(i.text, lay.base)
@@ -503,16 +501,16 @@ def other_form(form, lay, p):
         d.passive = True
     elif form == 'defb':
         d.pre = ['@defb={}:1,"a",$03 ; data'.format(e2)]
-        d.data, d.data_len = True, 3
+        d.data = True
     elif form == 'defs':
         d.pre = ['@defs={}:3,$FF'.format(e2)]
-        d.data, d.data_len = True, 3
+        d.data = True
     elif form == 'defw':
         d.pre = ['@defw={}:{},$0102'.format(e2, ins[0].saddr)]
-        d.data, d.data_len = True, 4
+        d.data = True
     elif form == 'def_chain':
         d.pre = ['@defb={}:1'.format(e2), '@defw=513', '@defs=2,7']
-        d.data, d.data_len = True, 5
+        d.data = True
     elif form == 'defb_here':
         d.pre = ['@defb=1,2,3,4,5']
         d.data = True
